@@ -42,7 +42,7 @@ DoSend(c, v) == IF Room(c) /\ ~(c = "exx" /\ cfg.stderr) THEN ch' = [ch EXCEPT !
 
 Returned(r) ==
   IF cfg.kind = "Emit" THEN (IF Bad(r.i) THEN [r EXCEPT !.pc = "catch", !.err = r.i] ELSE [r EXCEPT !.val = P!EmitVal(r.i), !.pc = "sendsel"])
-  ELSE (IF Bad(r.seed) THEN [r EXCEPT !.pc = "catch", !.err = r.seed]
+  ELSE (IF Bad(r.seed) THEN [r EXCEPT !.pc = "catch", !.err = r.seed, !.seed = r.seed + 100, !.val = r.seed + 100]   \* seed, err = f(seed)
         ELSE [r EXCEPT !.seed = P!StepFn(cfg.step, r.seed), !.val = P!StepFn(cfg.step, r.seed), !.pc = "sendsel"])
 \* what follows a completed iteration
 NextIter(r) == IF cfg.kind = "Emit" THEN [r EXCEPT !.i = @ + 1, !.pc = "sleep", !.wake = now + cfg.freq] ELSE r
